@@ -11,12 +11,39 @@ src = open(SRC).read()
 def die(msg):
     print("gen_cmd_consts: cannot translate: " + msg, file=sys.stderr); sys.exit(2)
 
-def ev(expr):
-    e = expr.strip().replace("_", "")
-    e = re.sub(r"(?<=\d)(u8|u16|u32|u64|usize|i64)\b", "", e)
+INT_TYPES = r"(?:u8|u16|u32|u64|usize|i8|i16|i32|i64|isize)"
+KNOWN = {}   # values of const fns already evaluated (CommandCcd::len(), header_len())
+
+def const_lookup(name, seen):
+    """Value of a `const NAME: T = <const expr>;` item anywhere in the file (associated or free)."""
+    if name in seen:
+        die("cyclic constant " + name)
+    m = re.search(r"\bconst\s+%s\s*:\s*[\w:<>()&' ,]+?\s*=\s*([^;]+);" % re.escape(name), src)
+    if not m:
+        die("non-constant expression: unknown identifier `%s`" % name)
+    return ev(m.group(1), seen | {name})
+
+def ev(expr, seen=frozenset()):
+    """Evaluate a Rust integer constant expression.  Spelling that cannot change the value is
+    abstracted: digit separators, literal suffixes, lossless conversions (`T::from(x)`, `x as T`,
+    `x.into()`), named constants (resolved from their definition), calls of the const fns whose
+    value was already extracted.  The result must fit into 32 bits (every quantity here does), so a
+    truncating `as` cannot hide behind the abstraction."""
+    e = re.sub(r"//.*", "", expr).strip().replace("_", "\x00")
+    e = re.sub(r"(?<=[0-9a-fA-F])\x00(?=[0-9a-fA-F])", "", e).replace("\x00", "_")
+    e = re.sub(r"(?<=\d)_?%s\b" % INT_TYPES, "", e)
+    e = re.sub(r"\b%s::from\s*\(" % INT_TYPES, "(", e)
+    e = re.sub(r"\s+as\s+%s\b" % INT_TYPES, "", e)
+    e = e.replace(".into()", "")
+    e = re.sub(r"\bCommandCcd::len\(\)", lambda m: str(KNOWN["CCD_LEN"]) if "CCD_LEN" in KNOWN else die("CommandCcd::len() used before it is known"), e)
+    e = re.sub(r"\b(?:Self|CommandPacket(?:::<[^>]*(?:<[^>]*>)?>)?)::header_len\(\)", lambda m: str(KNOWN["HEADER_LEN"]) if "HEADER_LEN" in KNOWN else die("header_len() used before it is known"), e)
+    e = re.sub(r"\b(?:[A-Za-z]\w*::)*([A-Z][A-Z0-9_]*)\b(?!\s*\()", lambda m: str(const_lookup(m.group(1), seen)), e)
     if not re.fullmatch(r"[0-9a-fA-Fx+\-*<>() ]+", e):
-        die("non-constant expression `%s`" % expr)
-    return int(eval(e, {"__builtins__": {}}))
+        die("non-constant expression `%s`" % expr.strip())
+    v = int(eval(e, {"__builtins__": {}}))
+    if not 0 <= v < 2 ** 32:
+        die("constant expression `%s` = %d does not fit the abstraction of casts" % (expr.strip(), v))
+    return v
 
 out = {}
 for name in ("PREFIX_MAGIC", "ACK_HEADER_LENGTH", "MINIMUM_ACK_SCD_LENGTH"):
@@ -26,11 +53,10 @@ for name in ("PREFIX_MAGIC", "ACK_HEADER_LENGTH", "MINIMUM_ACK_SCD_LENGTH"):
 m = re.search(r"pub const fn len\(\) -> u16 \{(.*?)\n    \}", src, re.S)
 if not m: die("CommandCcd::len")
 body = re.sub(r"//.*", "", m.group(1)).strip()
-out["CCD_LEN"] = ev(body)
+out["CCD_LEN"] = KNOWN["CCD_LEN"] = ev(body)
 m = re.search(r"fn header_len\(\) -> usize \{\s*([^}]*?)\s*\}", src, re.S)
 if not m: die("CommandPacket::header_len")
-hl = m.group(1).replace("CommandCcd::len() as usize", str(out["CCD_LEN"]))
-out["HEADER_LEN"] = ev(hl)
+out["HEADER_LEN"] = KNOWN["HEADER_LEN"] = ev(m.group(1))
 m = re.search(r"let flag_id: u16 = match self \{(.*?)\};", src, re.S)
 if not m: die("CommandFlag::serialize match")
 def strict_rows(block, what):
@@ -66,13 +92,9 @@ def fn_const(body, fn):
 out["READMEM_SCD_LEN"] = ev(fn_const(impl_body("ReadMem"), "scd_len"))
 out["WRITEMEM_ACK_SCD_LEN"] = ev(fn_const(impl_body("WriteMem"), "ack_scd_len"))
 # chunk header arithmetic: `CommandPacket::<WriteMem>::header_len() + 8`
-m = re.search(r"let cmd_header_len = CommandPacket::<WriteMem(?:<[^>]*>)?>::header_len\(\) \+ (\d+|[A-Z][A-Z0-9_]*);", src)
+m = re.search(r"let cmd_header_len = (CommandPacket::<WriteMem(?:<[^>]*>)?>::header_len\(\) \+ [^;]+);", src)
 if not m: die("WriteMem::chunks header arithmetic")
-add = m.group(1)
-if not add.isdigit():
-    mc = re.search(r"const\s+%s\s*:\s*\w+\s*=\s*([^;]+);" % add, src)
-    if not mc: die("named constant %s of the WriteMem::chunks header arithmetic" % add)
-    add = ev(mc.group(1))
+add = ev(m.group(1)) - out["HEADER_LEN"]
 out["WRITE_CHUNK_HEADER"] = out["HEADER_LEN"] + int(add)
 h = hashlib.sha1(src.encode()).hexdigest()[:16]
 lines = ["/- GENERATED by tools/gen_cmd_consts.py from device/src/u3v/protocol/cmd.rs — do not edit.",
